@@ -524,6 +524,7 @@ func runCase(t *testing.T, prop string, cfg propCfg, c int, work string, part *h
 	profile := cfg.profiles[c%len(cfg.profiles)]
 	p := gen.Generate(rng, profile)
 	p.Seed = h.Seed()
+	p.EnvX = os.Getenv("X")
 	files := p.Render()
 	dir := filepath.Join(work, fmt.Sprintf("c%d", c))
 	os.RemoveAll(dir)
